@@ -245,6 +245,7 @@ def main(run):
                       outside="grids > 7x7, > 9 layers, other profile families, rounding")
     cex = run.pmap(worker, scs)
     kindl.handle_cex(run, PID, cex, replay)
-    pick = [s for s in scs if s["pid"] in ("P2", "P5") and s["ny"] != s["nx"]][:2]
+    cscs = kindl.base_scenarios("quick", 0, max_cells=30)
+    pick = [s for s in cscs if s["pid"] in ("P2", "P5") and s["ny"] != s["nx"]][:2]
     kindl.run_canaries(run, "vf.props.C07:canary_probe", CANARIES, pick)
     C07p.run_exact(run)
